@@ -94,7 +94,20 @@ def truth(it, v):
     if isinstance(v, SSet):
         if v.card is not None:
             return v.card > 0
-        raise Unsupported('truth of abstract set')
+        # non-emptiness of an abstract set of strings: a Skolem witness for the positive case, a universally
+        # quantified fact for the negative one (cached on the set so that repeated tests agree)
+        if getattr(v, 'nonempty', None) is None:
+            if it.specmode or it.quant_depth:
+                raise Unsupported('truth of abstract set in a spec')
+            if v.elt is not None and getattr(v.elt, 'tag', None) != 'str':
+                raise Unsupported('truth of abstract set of %r' % (v.elt,))
+            w = it.fresh_str('member')
+            ne = z3.Bool(it.path.fresh_name('nonempty'))
+            q = z3.Const(it.path.fresh_name('anystr'), StrS)
+            it.path.assume(z3.Implies(ne, zbool(v.has(w))))
+            it.path.assume(z3.Implies(z3.Not(ne), z3.ForAll([q], z3.Not(zbool(v.has(SStr(q)))))))
+            v.nonempty = ne
+        return v.nonempty
     if isinstance(v, (SMap, SOpaque)):
         raise Unsupported('truth of %s' % type(v).__name__)
     return bool(v)
@@ -148,6 +161,12 @@ def binop(it, op, a, b):
                 return a // b
             if op == '%':
                 if isinstance(a, str):
+                    items = b if isinstance(b, tuple) else (list(b.values()) if isinstance(b, dict) else [b])
+                    if any(isinstance(x, (Sym, SObj)) for x in items):
+                        # a symbolic value inside the argument tuple: never format its repr
+                        if getattr(it, 'structured_text', False):
+                            return SText([('fmt', a, b if isinstance(b, tuple) else (b,))])
+                        return it.fresh_str('fmt')
                     try:
                         return a % b
                     except TypeError:
